@@ -29,6 +29,7 @@ type tcase struct {
 	id   string
 	cut  int
 	disk bool
+	kind string
 	rid  uint64
 	from uint64
 	cmds []command
@@ -47,8 +48,9 @@ func parseCase(line string) tcase {
 		if strings.HasPrefix(kv, "cut=") {
 			c.cut, _ = strconv.Atoi(kv[4:])
 		}
-		if kv == "kind=disk" {
+		if kv == "kind=disk" || kv == "kind=reg" {
 			c.disk = true
+			c.kind = kv[5:]
 		}
 		if strings.HasPrefix(kv, "rid=") {
 			c.rid, _ = strconv.ParseUint(kv[4:], 10, 64)
@@ -66,18 +68,18 @@ func parseCase(line string) tcase {
 	return c
 }
 
-func caseLine(id string, cut int, disk bool, cmds []command) string {
-	return caseLineIDs(id, cut, disk, 1, 2, cmds)
+func caseLine(id string, cut int, kind string, cmds []command) string {
+	return caseLineIDs(id, cut, kind, 1, 2, cmds)
 }
 
-func caseLineIDs(id string, cut int, disk bool, rid uint64, from uint64, cmds []command) string {
+func caseLineIDs(id string, cut int, kind string, rid uint64, from uint64, cmds []command) string {
 	var s []string
 	for _, c := range cmds {
 		s = append(s, c.String())
 	}
 	k := ""
-	if disk {
-		k = " kind=disk"
+	if kind != "" {
+		k = " kind=" + kind
 	}
 	if rid != 1 || from != 2 {
 		k += fmt.Sprintf(" rid=%d from=%d", rid, from)
@@ -106,7 +108,7 @@ func runCase(c tcase, dist map[string]int) (lines []string, total int, inside bo
 			fromID = 1
 		}
 	}
-	w := newWorldKind(c.cut, c.disk)
+	w := newWorldKind(c.cut, c.kind)
 	w.r.distinct = dist
 	for n, cmd := range c.cmds {
 		oc := w.do(cmd)
@@ -156,6 +158,8 @@ func runCase(c tcase, dist map[string]int) (lines []string, total int, inside bo
 			viol = append(viol, fmt.Sprintf("restart %s after crash and start-up cleanup (recorded snapshot %d, state machine durable up to %d): %s", ro, w.rec, durBefore, w.lastPanic))
 		case w.appliedIndex() < w.rec:
 			viol = append(viol, fmt.Sprintf("the replica restarted at index %d, older than the recorded snapshot %d", w.appliedIndex(), w.rec))
+		case w.reg && w.rec != 0 && w.disk.vol != w.rec:
+			viol = append(viol, fmt.Sprintf("the replica restarted from recorded snapshot %d but its state machine holds the image of index %d", w.rec, w.disk.vol))
 		}
 	}
 	t := w.observe()
@@ -199,6 +203,7 @@ func scenarios() [][]command {
 		p("RECV 5 2; RECORD 5; RECV 5 1; APPLY 5"),
 		p("SAVE 3 1; COMMIT 3; RECV 7 1; RECORD 7; RECVX 7 2 1; APPLY 7; COMPACT 3"),
 		p("SAVE 6 1; RECV 6 2; RECORD 6; COMMIT 6; APPLY 6"),
+		p("SAVE 4 1; COMMIT 4; EXPORT 4 1; EXPORT 9 2; RECV 9 1; APPLY 9; EXPORT 9 1"),
 		p("RECVX 5 2 1; APPLY 5"),
 		p("RECVX 5 1 2; APPLY 5; SAVE 7 1; COMMIT 7; COMPACT 5"),
 		p("SAVE 6 1; RECVX 6 3 3; COMMIT 6; APPLY 6; CRASH"),
@@ -269,7 +274,11 @@ func randomSeq(r *vh.Rand, maxLen int) []command {
 		case 8, 9:
 			out = append(out, command{kind: "COMPACT", i: pick(final)})
 		case 10:
-			out = append(out, command{kind: "RESTART"})
+			if r.Bool() {
+				out = append(out, command{kind: "EXPORT", i: pick(final), n: uint64(r.Intn(3))})
+			} else {
+				out = append(out, command{kind: "RESTART"})
+			}
 		default:
 			out = append(out, command{kind: "CRASH"})
 			saved, received = nil, nil
@@ -368,15 +377,15 @@ func gen(a vh.Args) {
 	for len(seqs) < nseq {
 		seqs = append(seqs, randomSeq(r, 7))
 	}
-	emit := func(prefix string, k int, disk bool, cmds []command) {
-		_, total, _, _ := runCase(tcase{id: "probe", cut: -1, disk: disk, cmds: cmds}, nil)
-		w.Printf("%s\n", caseLine(fmt.Sprintf("%s%dfull", prefix, k), -1, disk, cmds))
+	emit := func(prefix string, k int, kind string, cmds []command) {
+		_, total, _, _ := runCase(tcase{id: "probe", cut: -1, disk: kind != "", kind: kind, cmds: cmds}, nil)
+		w.Printf("%s\n", caseLine(fmt.Sprintf("%s%dfull", prefix, k), -1, kind, cmds))
 		for cut := 0; cut <= total; cut++ {
-			w.Printf("%s\n", caseLine(fmt.Sprintf("%s%dk%d", prefix, k, cut), cut, disk, cmds))
+			w.Printf("%s\n", caseLine(fmt.Sprintf("%s%dk%d", prefix, k, cut), cut, kind, cmds))
 		}
 	}
 	for k, cmds := range seqs {
-		emit("s", k, false, cmds)
+		emit("s", k, "", cmds)
 	}
 	// replica / sender ids and snapshot indices at the boundaries of uint64 and of the
 	// decimal / hexadecimal name formats
@@ -394,18 +403,18 @@ func gen(a vh.Args) {
 		}
 		replicaID, fromID = rid, from
 		_, total, _, _ := runCase(tcase{id: "probe", cut: -1, rid: rid, from: from, cmds: cmds}, nil)
-		w.Printf("%s\n", caseLineIDs(fmt.Sprintf("b%dfull", k), -1, false, rid, from, cmds))
+		w.Printf("%s\n", caseLineIDs(fmt.Sprintf("b%dfull", k), -1, "", rid, from, cmds))
 		for cut := 0; cut <= total; cut++ {
-			w.Printf("%s\n", caseLineIDs(fmt.Sprintf("b%dk%d", k, cut), cut, false, rid, from, cmds))
+			w.Printf("%s\n", caseLineIDs(fmt.Sprintf("b%dk%d", k, cut), cut, "", rid, from, cmds))
 		}
 	}
 	dcmds := parseSeq("RECV 9 2; APPLY 9; RECOVER 9; ENTRIES 12; DSAVE; CRASH")
 	{
 		rid, from := uint64(1<<64-1), uint64(10000000000000000)
-		_, total, _, _ := runCase(tcase{id: "probe", cut: -1, disk: true, rid: rid, from: from, cmds: dcmds}, nil)
-		w.Printf("%s\n", caseLineIDs("bdfull", -1, true, rid, from, dcmds))
+		_, total, _, _ := runCase(tcase{id: "probe", cut: -1, disk: true, kind: "disk", rid: rid, from: from, cmds: dcmds}, nil)
+		w.Printf("%s\n", caseLineIDs("bdfull", -1, "disk", rid, from, dcmds))
 		for cut := 0; cut <= total; cut++ {
-			w.Printf("%s\n", caseLineIDs(fmt.Sprintf("bdk%d", cut), cut, true, rid, from, dcmds))
+			w.Printf("%s\n", caseLineIDs(fmt.Sprintf("bdk%d", cut), cut, "disk", rid, from, dcmds))
 		}
 	}
 	dseqs := diskScenarios()
@@ -413,7 +422,24 @@ func gen(a vh.Args) {
 		dseqs = append(dseqs, randomDiskSeq(r, 6))
 	}
 	for k, cmds := range dseqs {
-		emit("d", k, true, cmds)
+		emit("d", k, "disk", cmds)
+	}
+	// a replica with a regular state machine: really restarted after every crash
+	rseqs := [][]command{
+		parseSeq("ENTRIES 5; DSAVE; ENTRIES 9; DSAVE"),
+		parseSeq("RECV 5 2; APPLY 5; RECOVER 5; ENTRIES 8; DSAVE; CRASH; ENTRIES 12; DSAVE"),
+		parseSeq("RECVX 6 2 1; RECORD 6; RECV 6 1; APPLY 6; RECOVER 6; COMPACT 6"),
+		parseSeq("ENTRIES 4; DSAVE; RECV 9 3; APPLY 9; RECOVER 9; CRASH; RECV 11 1; APPLY 11"),
+	}
+	nreg := 14
+	if a.Tier == "thorough" {
+		nreg = 300
+	}
+	for len(rseqs) < nreg {
+		rseqs = append(rseqs, randomDiskSeq(r, 6))
+	}
+	for k, cmds := range rseqs {
+		emit("r", k, "reg", cmds)
 	}
 }
 
